@@ -7,6 +7,7 @@ package telnet
 import (
 	"bufio"
 	"fmt"
+	"io"
 	"net"
 	"strings"
 )
@@ -14,6 +15,17 @@ import (
 type Conn struct {
 	net.Conn
 	remoteCall string
+
+	// The reader used for the login. It may hold bytes that arrived together with the
+	// last login line, so Read must drain it before reading from the connection.
+	r io.Reader
+}
+
+func (conn *Conn) Read(p []byte) (int, error) {
+	if conn.r == nil {
+		return conn.Conn.Read(p)
+	}
+	return conn.r.Read(p)
 }
 
 func (conn Conn) RemoteCall() string { return conn.remoteCall }
@@ -54,5 +66,5 @@ func (ln listener) Accept() (net.Conn, error) {
 	fmt.Fprintf(conn, "Password :\r")
 	_, err = reader.ReadString('\r') //TODO
 
-	return &Conn{conn, remoteCall}, err
+	return &Conn{Conn: conn, remoteCall: remoteCall, r: reader}, err
 }
